@@ -16,7 +16,7 @@ def run(ctx):
     tools = build.build("tools")
     W.tlc_writer_model(ctx, ctx.quick())
     items = W.tlc_behaviours(ctx, 200 if ctx.quick() else 4000, depth=10)
-    rnd = [it for it in W.random_items(ctx, 120 if ctx.quick() else 2000, pools=True) if it.get("klass") in ("unordered", "cutprobe", "emptykey", "plain", "capacity")]
+    rnd = [it for it in W.random_items(ctx, 120 if ctx.quick() else 2000, pools=True) if it.get("klass") in ("unordered", "cutprobe", "emptykey", "plain", "capacity", "empty", "lonely")]
     # the capacity class (blocks ending within a few bytes of 64 / 128 KiB) with refused adds in between: an add that is refused must
     # leave the block - and the buffers it is built in - as they were
     for it in rnd:
